@@ -27,7 +27,7 @@ claim("C01", "proof",
       "abstract interpretation of typed HIR to exact canonical forms + formal differentiation (no execution, no solver)",
       "DESIGN.md 5.C01")
 claim("C02", "proof",
-      "Static proof over the reals: every part of a*b, a/b, a+b, a-b, -a for all 8 types in every presence pattern of optional parts equals the part obtained by formal differentiation (Leibniz / quotient rule) of the real expression. Exactness on dyadic operands follows only under the statement's own no-rounding premise; rounding is NOT decided.",
+      "Static proof over the reals: every part of a*b, a/b, a+b, a-b, -a for all 8 types in every presence pattern of optional parts, along every decision-tree path of the operator body, equals the part obtained by formal differentiation (Leibniz / quotient rule) of the real expression; the same for every other form of the operations between two dual numbers (owned/borrowed operand mixes, compound assignment, Neg, Inv: 23 impls per type) and for the optional-matrix container's own operators. A predicate on a value of the inner number type is treated as inspecting its real part only (nested types). Exactness on dyadic operands follows only under the statement's own no-rounding premise; rounding is NOT decided.",
       TB,
       "abstract interpretation of typed HIR to exact canonical forms, compared with a generated truncated-Taylor-algebra spec",
       "DESIGN.md 5.C02")
@@ -43,7 +43,7 @@ claim("C08", "proof",
       "abstract interpretation of typed HIR to exact canonical forms; impl table enumeration with floor 320",
       "DESIGN.md 5.C08")
 claim("C09", "proof",
-      "Static proof over the reals: powi/powf in every decision-tree arm (n=0, 1, 2 / |n-2|<eps, general symbolic n, negative n) equal the formal derivatives of x^n in all parts; powd equals the lifting of exp(n ln x) in base and exponent; recip/sqrt/cbrt agree with the power forms; sound interval analysis shows every i32 sub-expression of powi stays in range for |n| <= 2^30 (violations only with an exact witness); float instances forward to std. Float overflow/underflow of x^(n-3) is NOT decided.",
+      "Static proof over the reals: powi/powf in every decision-tree arm (n=0, 1, 2 / |n-2|<eps, general symbolic n, negative n) equal the formal derivatives of x^n in all parts; powd (every path) equals the lifting of exp(n ln x) in base and exponent; recip/sqrt/cbrt agree with the power forms; the power items of nalgebra's ComplexField impls (powi, powf and powc with a DUAL exponent, sqrt, cbrt, recip) equal the same liftings; sound interval analysis shows every i32 sub-expression of powi stays in range for |n| <= 2^30 (violations only with an exact witness); float instances forward to std. Float overflow/underflow of x^(n-3) is NOT decided.",
       TB,
       "abstract interpretation with symbolic exponent + integer interval analysis on typed HIR",
       "DESIGN.md 5.C09")
@@ -59,7 +59,7 @@ claim("C04", "proof",
       "canonical-form comparison between sibling implementations + impl/alias table rules",
       "DESIGN.md 5.C04")
 claim("C06", "proof",
-      "Sound dependency analysis (no cancellation, data + control dependence, all decision-tree paths) over 864 operation bodies: the real part of every result and every guard depends on operand real parts and scalar parameters only; comparison traits and predicates forward to the real part with arguments in order; min/max/clamp agree with the reference selection on all weak orderings and return operands wholesale; 58 plain-float items forward to the same-named std method. The 'few ulps' clause is NOT decided.",
+      "Sound dependency analysis (no cancellation, data + control dependence, all decision-tree paths) over 864 operation bodies: the real part of every result and every guard depends on operand real parts and scalar parameters only; representation independence of the vector types in an uninterpreted-term domain; comparison traits and predicates decide like the float predicate on the real part (checked semantically on sample values); min/max/clamp/copysign agree with the reference selection on all weak orderings and return operands wholesale; branch agreement: with guards decided at sample real parts on both sides of every switch, the real part of each of the 25 unary interface methods is the expression the plain-float instance evaluates on its own path; 58 plain-float items forward to the same-named std method. The 'few ulps' clause is NOT decided.",
       "trusted: rustc's type checker and name resolution, the exporter, the interpreter skeleton; assumes deterministic float operations; NaN orderings excluded",
       "abstract interpretation with a dependency-set domain over typed HIR + ordering-lattice enumeration",
       "DESIGN.md 5.C06")
@@ -70,12 +70,12 @@ claim("C11", "other",
       "DESIGN.md 5.C11")
 
 claim("C05", "other",
-      "Abstract evaluation of all 20 public drivers with an opaque closure (element-uniform vectors, symbolic indices): what the closure receives is the input with the unit direction e_k seeded on element k (Kronecker delta on the loop counter / the i,j,k parameters) in the declared shape and nothing else; the returned tuple lists the result's parts in declared order, row-vector parts transposed, absent parts as zeros; jacobian[(i,j)] is part j of output i and partial_hessian is M x N; an Err from the closure is returned unchanged; infallible wrappers equal the try_ variants on Ok. Thorough tier adds a compile_fail,E0308 witness (with compiling twin) pinning the Jacobian / partial-Hessian orientation at the type level. The derivative values themselves are C03.",
+      "Abstract evaluation of all 20 public drivers with an opaque closure (element-uniform vectors, symbolic indices): what the closure receives is the input with the unit direction e_k seeded on element k (Kronecker delta on the loop counter / the i,j,k parameters, all 8 coincidence cases of i,j,k explored) in the declared shape and nothing else; loops that carry state are tested for element-uniformity; the returned tuple lists the result's parts in declared order, row-vector parts transposed, and for EVERY presence pattern of the closure's result an absent part comes back as zeros; jacobian[(i,j)] is part j of output i (rows written at the output's own index, not at a position after filtering) and partial_hessian is M x N; an Err from the closure is returned unchanged; infallible wrappers equal the try_ variants on Ok. Thorough tier adds a compile_fail,E0308 witness (with compiling twin) pinning the Jacobian / partial-Hessian orientation at the type level. The derivative values themselves are C03.",
       "trusted: rustc type checker and name resolution, the exporter, the interpreter; loops over the inputs are element-uniform (one evaluation per symbolic index)",
       "abstract interpretation of typed HIR with an opaque closure + compile-fail witness",
       "DESIGN.md 5.C05")
 claim("C13", "other",
-      "Static rules: to_superset / from_superset_unchecked convert every part exactly once with the matching element conversion and preserve absence; sibling coherence: for every presence case and every assignment of per-part membership, from_superset(e).is_some() == is_in_subset(e) (Derivative, Dual, DualVec, Dual2, Dual2Vec); lifting a float gives a constant, extraction the real part; the two unsafe element-wise loop nests match the bounded fully-initialising template (ranges are exactly 0..nrows/0..ncols of the source, row/column variables in their own slots of the unchecked read and write, one unconditional write per element, assume_init only after the nest); the remaining unsafe code is enumerated (trait methods forwarding to the same-named unsafe method).",
+      "Static rules: to_superset / from_superset_unchecked convert every part exactly once with the matching element conversion and preserve absence; sibling coherence: for every presence case and every assignment of per-part membership, from_superset(e).is_some() == is_in_subset(e) (Derivative, Dual, DualVec, Dual2, Dual2Vec), and a present derivative of dimension 0 is a member; lifting a float gives a constant, extraction the real part; the two unsafe element-wise loop nests match the bounded fully-initialising template (ranges are exactly 0..nrows/0..ncols of the source, row/column variables in their own slots of the unchecked read and write, one unconditional write per element, assume_init only after the nest); the remaining unsafe code is enumerated (trait methods forwarding to the same-named unsafe method).",
       "trusted: rustc type checker and name resolution, the exporter, the interpreter; element conversions of the inner type are coherent (induction); nalgebra's uninit/get_unchecked contracts",
       "Option-semantics abstract interpretation + contradiction rule between sibling methods + template-with-slots rule for unsafe loops",
       "DESIGN.md 5.C13")
@@ -85,7 +85,7 @@ claim("C16", "other",
       "structural rules on the type-checked derive expansion (typed HIR)",
       "DESIGN.md 5.C16")
 claim("C17", "other",
-      "Structural + canonical-form rules over the pyo3 wrapper layer (python configuration, 56 classes): 1736 named methods are exactly self.0.<mapped Rust item>(args in order).into(); 224 binary dunders compute self.0 OP r with their own operator and self on the left in every extract branch; 280 reflected operators / negations evaluate to the canonical form of lhs OP self; __pow__ tries i32->powi, f64->powf, Self->powd in order; constructors are positional; 55 length-dispatched driver arms use one length for the array, the SVector types and the class, call the try_ function of their own name and convert matrices by rows; all 10 #[pyfunction]s and every constructible class are registered. The embedded interpreter and numpy object arrays at run time are NOT decided.",
+      "Structural + canonical-form rules over the pyo3 wrapper layer (python configuration, 56 classes): 1736 named methods are exactly self.0.<mapped Rust item>(args in order).into(); 224 binary dunders compute self.0 OP r with their own operator and self on the left in every extract branch; 280 reflected operators / negations evaluate to the canonical form of lhs OP self; __pow__ tries i32->powi, f64->powf, Self->powd in order; constructors are positional; 55 length-dispatched driver arms use one length for the array, the SVector types and the class, call the try_ function of their own name with the driver's parameters in declaration order (closures hand their parameters to the Python callable in order) and convert matrices by rows; all 10 #[pyfunction]s and every constructible class are registered. The embedded interpreter and numpy object arrays at run time are NOT decided.",
       "trusted: rustc expansion and type checker (pyo3 macro output as compiled), the exporter, structural walkers, name table A.6",
       "forwarding / who-calls-what rules on resolved callees of the typed HIR + canonical-form evaluation of reflected operators",
       "DESIGN.md 5.C17")
@@ -96,22 +96,22 @@ claim("C18", "other",
       "DESIGN.md 5.C18")
 
 claim("C10", "other",
-      "Abstract interpretation of the code as written (not of its canonical form) in a finiteness/sign domain with exact constants and an interval for the power exponent: at every enumerated special point (powi at 0 for n = 0,1,2 and integers >= 3; powf at 0 for n = 0,1,2, integers >= 3 and non-integers above the order of the type; atan2 on either axis away from the origin; sph_j0/1/2, bessel_j0/1/2, exp_m1, ln_1p at 0) with arbitrary finite derivative parts, every part of the result is finite on every path for all 8 types (no 0*inf, 0/0, inf-inf). Equality with the mathematical value follows from C01/C09/C15. Known findings: powf at 0 with a non-integer exponent in (order, 3). Immediate floating-point neighbours of the points are NOT decided.",
+      "Abstract interpretation of the code as written (not of its canonical form) in a finiteness/sign domain with exact constants, the f64 range model (underflow to 0, overflow to inf) and an interval for the power exponent: at every enumerated special point (powi at 0 for n = 0,1,2 and integers >= 3; powf at 0 for n = 0,1,2, integers >= 3 and non-integers above the order of the type; atan2 on either axis away from the origin; sph_j0/1/2, exp_m1, ln_1p at 0, at the immediate neighbours +-2^-1074 and at +-2^-1022; bessel_j0/1/2 at 0) with arbitrary finite derivative parts, every part of the result is finite on every path for all 8 types and for the plain-float instances (no 0*inf, 0/0, inf-inf). Value clause: at these points the arm taken by bessel_j*/sph_j* is the Maclaurin polynomial of the function (exact coefficient comparison, adequate truncation) and both arms of atan2 carry the derivative parts of the two-argument arctangent (rule sets of C14/C15/C01 reused). Known findings: powf at 0 with a non-integer exponent in (order, 3).",
       "trusted: rustc type checker and name resolution, the exporter, the interpreter, the transfer functions of ndvlib/domb.py; assumes finite*finite and finite+finite stay finite; Horner-at-zero summary for polevl/p1evl",
       "abstract interpretation with a finiteness/sign lattice (+ exponent intervals) over typed HIR",
       "DESIGN.md 5.C10")
 claim("C12", "other",
-      "NARROW structural claim (linalg configuration): the singular-pivot guard of LU::new tree-dominates every division by the pivot of the same iteration, the guarded quantity is the column maximum of |a[(k,i)]|.re() over the remaining rows with its row recorded, LU values can only be produced by LU::new; branch conditions use real parts, counters, sizes or the scalar's own comparison items; row swap / permutation swap / parity counter are updated together, the determinant is negated exactly for odd parity, the eigenvalue sort swaps eigenvector columns with their eigenvalues, ScalarOperand covers all 8 types. NOT decided (declared out of reach): A x = b, A A^-1 = I, A V = V diag(lambda), Jacobi's formula, Hellmann-Feynman, convergence, tolerances, nalgebra's decompositions.",
+      "NARROW claim (linalg configuration). Structural: the singular-pivot guard of LU::new tree-dominates every division by the pivot of the same iteration, the guarded quantity is the column maximum of |a[(k,i)]|.re() over the remaining rows with its row recorded, LU values can only be produced by LU::new; branch conditions use real parts, counters, sizes or the scalar's own comparison items. Formula level (element-wise abstract interpretation of the loop nests with symbolic indices, arrays named by the role they are returned in): LU::new is Doolittle elimination with whole-row partial pivoting statement by statement, on every path row exchange / permutation exchange / parity counter move together; solve and inverse are forward/back substitution on the permuted right-hand side (inverse: permuted unit vectors); determinant is the product of the pivots negated exactly for odd parity; the Jacobi sweep uses the textbook t, c, s, tau and rotation formulas on all four index ranges, updates diagonal/accumulator, annihilates a_pq, and the final selection sort is ascending and exchanges eigenvector columns with their eigenvalues; the field-trait methods nalgebra's decompositions call and the element operations (+ - * /, compound assignment, also with absent derivative parts) are the verified dual operations. NOT decided (declared out of reach): A x = b, A A^-1 = I, A V = V diag(lambda), Jacobi's formula, Hellmann-Feynman, convergence, tolerances, nalgebra's own decompositions.",
       "trusted: rustc type checker and name resolution, the exporter, structural walkers; no loop invariants of the numerical algorithms are established",
       "tree-dominance and pairing rules on structured typed HIR",
       "DESIGN.md 5.C12")
 claim("C14", "other",
-      "NARROW claim: (1) parity — for each region (tiny, |x|<=5, |x|>5) the canonical real form computed for a negative argument, mirrored, equals +-the form for the positive argument (J0, J2 even, J1 odd; all guards decided by the real part; coefficient tables opaque functions of x^2); (2) interface purity — bessel.rs touches its operand only through DualNum/operator items, hence derivative parts are those of the computed real function; (3) small-argument series — each polynomial arm equals the Maclaurin polynomial of J_n up to its own degree and is adequate for derivative orders 0..4 at the arm's threshold (exact rational bound vs 2^-50). NOT decided: accuracy of the rational approximations for |x|<=5 and of the asymptotic form beyond, continuity at |x|=5, the coefficient tables.",
+      "NARROW claim: (1) parity — for each region (tiny, |x|<=5, |x|>5) the canonical real form computed for a negative argument, mirrored, equals +-the form for the positive argument (J0, J2 even, J1 odd; all guards decided by the real part); (2) interface purity — bessel.rs touches its operand only through DualNum/operator items, and those operations (+ - * / and the chain rule of all 8 types) are the truncated-algebra operations (rule sets of C02/C01 reused), hence derivative parts are those of the computed real function; (3) small-argument series — each polynomial arm equals the Maclaurin polynomial of J_n up to its own degree and is adequate for derivative orders 0..4 at the arm's threshold (exact rational bound vs 2^-50); (4) switch points agree between the three functions; the rational arm's Maclaurin expansion (tables evaluated exactly in a truncated-power-series domain) agrees with that of J_n to the accuracy of the tables; the asymptotic arm has the leading behaviour sqrt(2/(pi x)) cos(x - (2n+1)pi/4). NOT decided: accuracy of the rational approximations over the whole of |x|<=5 and of the asymptotic form beyond, continuity at |x|=5.",
       "trusted: rustc type checker and name resolution, the exporter, ndvlib/poly.py, Maclaurin tables computed in ndvlib/series.py",
       "real-function abstract interpretation per region + parity check by substitution + exact series bounds",
       "DESIGN.md 5.C14")
 claim("C15", "proof",
-      "Static proof over the reals for the dual impl (as instantiated for the 8 types) and both float impls: the closed-form arm is the definition of j0, j1, j2; the small-argument arm is the Maclaurin truncation and is adequate (exact rational bound <= 2^-50 for |x| < eps) for every derivative order the type carries, and up to total order 4 for nested types; the switch is symmetric in the sign of the argument and both arms have the parity of the function; dual and float siblings agree arm by arm; in dual arithmetic both arms are the lifting of their real function (all parts, presence patterns). Rounding in the closed form near the switch is NOT decided.",
+      "Static proof over the reals for the dual impl (as instantiated for the 8 types) and both float impls: the closed-form arm is the definition of j0, j1, j2; the small-argument arm is the Maclaurin truncation and is adequate (exact rational bound <= 2^-50 for |x| < eps) for every derivative order the type carries, and up to total order 4 for nested types; the switch is symmetric in the sign of the argument, is the same condition in the dual impl and in both float instances (the machine epsilon of the instance's own float type), and both arms have the parity of the function; dual and float siblings agree arm by arm; in dual arithmetic both arms are the lifting of their real function (all parts, presence patterns). Rounding in the closed form near the switch is NOT decided.",
       TB + "; Maclaurin tables computed in ndvlib/series.py",
       "real-function and canonical-form abstract interpretation + exact Maclaurin comparison",
       "DESIGN.md 5.C15")
